@@ -215,7 +215,7 @@ func (x *Exec) logsMentioned(c *Contract) []string {
 		switch v := e.(type) {
 		case *ECall:
 			switch v.Fun {
-			case "calls", "arg", "argc", "ret", "panicked":
+			case "calls", "arg", "argc", "ret", "retc", "panicked":
 				if len(v.Args) > 0 {
 					if n := exprName(v.Args[0]); n != "" {
 						if lc := x.loggedContract(n); lc != nil {
@@ -323,6 +323,13 @@ func (x *Exec) logCall(st *State, c *Contract, name string, args []Val, res []Va
 	}
 	for i, r := range res {
 		upd(fmt.Sprintf("ret%d", i), r.T.Sort, r.T)
+		if r.typ != nil {
+			if sl, ok := r.typ.Underlying().(*types.Slice); ok {
+				// contents of a returned slice at the time of the return (retc)
+				content := sel(st.arrHeap(sl.Elem()), sliceArr(r.T))
+				upd(fmt.Sprintf("retc%d", i), content.Sort, content)
+			}
+		}
 	}
 	upd("panicked", SBool, mkBool(panicked))
 	st.ghost[nName] = st.name("logn", app(SInt, "+", n, mkInt(1)))
@@ -403,6 +410,15 @@ func (x *Exec) logExpr(c *EvalCtx, v *ECall) SV {
 		sfail("%s: cannot find the signature of %s", v.Fun, lc.Target)
 	}
 	switch v.Fun {
+	case "retc":
+		if k >= sig.Results().Len() {
+			sfail("retc: %s has %d results", lc.Target, sig.Results().Len())
+		}
+		sl, ok := sig.Results().At(k).Type().Underlying().(*types.Slice)
+		if !ok {
+			sfail("retc: result %d of %s is not a slice", k, lc.Target)
+		}
+		return SV{t: sel(ghostOr(fmt.Sprintf("retc%d", k), arraySort(SInt, sortOf(sl.Elem()))), i)}
 	case "ret":
 		if k >= sig.Results().Len() {
 			sfail("ret: %s has %d results", lc.Target, sig.Results().Len())
